@@ -16,7 +16,13 @@ import (
 )
 
 func init() {
-	core.Register(core.Check{ID: "C08", Level: "exploration", Run: func(c *core.Ctx) { runC08(c); historyPass(c, "C08"); reentrancyPass(c, "C08"); arch386Pass(c, "C08") }})
+	core.Register(core.Check{ID: "C08", Level: "exploration", Run: func(c *core.Ctx) {
+		waitArch := background(func() { arch386Pass(c, "C08") })
+		runC08(c)
+		historyPass(c, "C08")
+		reentrancyPass(c, "C08")
+		waitArch()
+	}})
 }
 
 type c08curve struct {
